@@ -956,6 +956,16 @@ def pure_eq(I_, a, b, st):
     return False
   if isinstance(a, type) and isinstance(b, type):
     return a is b
+  if isinstance(a, BoundMethod) or isinstance(b, BoundMethod):
+    # bound methods are equal iff they bind the same function to the same object (each attribute access makes a new one)
+    if not (isinstance(a, BoundMethod) and isinstance(b, BoundMethod)):
+      return False
+    if a.func is not b.func:
+      return False
+    sa, sb_ = a.self, b.self
+    if isinstance(sa, Ref) and isinstance(sb_, Ref):
+      return sa.oid == sb_.oid
+    return sa is sb_
   if isinstance(a, tuple) and isinstance(b, tuple):
     if len(a) != len(b):
       return False
@@ -1973,6 +1983,10 @@ def iter_values(I_, v, st, ctx, k, node=None, live_ok=False):
         return I_.call_value(I_.bind(f, v, o.cls), [], {}, st, ctx,
                              lambda st2, r: iter_values(I_, r, st2, ctx, k, node), node)
       return I_.raise_exc(st, ctx, TypeError, "object is not iterable", node)
+    # a list of symbolic length (or any other heap kind): not iterable by unrolling - the construct is outside the
+    # evaluator (a `for` statement over it can carry a loop invariant; a comprehension / generator cannot)
+    raise Unsupported("iteration over a %s of symbolic length outside a `for` statement with an invariant at %s"
+                      % (o.kind, I_.where(ctx, node)))
   if isinstance(v, IterVal):
     return k(st, list(v.items))
   if isinstance(v, SymRange):
@@ -2008,6 +2022,9 @@ def iter_values(I_, v, st, ctx, k, node=None, live_ok=False):
   try:
     if isinstance(v, (types.GeneratorType,)):
       raise Unsupported("iteration over a real generator")
+    if not isinstance(v, (list, tuple, dict, set, frozenset)) and not fully_concrete(v):
+      # an engine value (heap reference, symbolic bytes ...) that no case above knows how to walk
+      raise Unsupported("iteration over engine value %r" % type(v).__name__)
     return k(st, list(v))
   except TypeError as e:
     return I_.raise_exc(st, ctx, TypeError, str(e), node)
